@@ -276,7 +276,26 @@ def non_statement(src: str) -> bool:
     return src.rstrip().rstrip(":").strip() in ("try", "else", "finally")
 
 
+def resolve(case):
+    """cases may name the point by source text ("at_source") instead of by event index"""
+    if "event_index" in case:
+        return case
+    dd = scratchdir.new("c35loc")
+    try:
+        trace, _, _ = dry_run(case["kind"], dd)
+    finally:
+        scratchdir.rm(dd)
+    row = LF.locate(trace, case["at_source"])
+    if row is None:
+        return None
+    return dict(case, event_index=row[0], expect=[row[2], row[3]])
+
+
 def check_fault(case):
+    case = resolve(case)
+    if case is None:
+        LAST["outcome"] = "point_not_found"
+        return []
     kind, k = case["kind"], case["event_index"]
     exp = case.get("expect")
     if exp and non_statement(_source_line(exp[0], exp[1])):
